@@ -24,7 +24,7 @@ ALL = ["<svg>", "<math>", "<style>", "<title>", "<textarea>", "<noscript>", "<xm
 # depth beyond 2 is explored over the fragments that switch parser / serializer context
 CORE = ["<svg>", "<math>", "<style>", "<title>", "<noscript>", "<mtext>", "<annotation-xml encoding=text/html>", "<foreignObject>",
         "<desc>", "<p>", "</p>", "<a xlink:show=new>", "&lt;img src=x onerror=y&gt;", "<b>", "<textarea>", "<table>"]
-DEEP = ["<svg>", "<math>", "<style>", "<foreignObject>", "<desc>", "<mtext>", "</p>", "&lt;img src=x onerror=y&gt;", "<noscript>", "<p>"]
+DEEP = ["<svg>", "<math>", "<style>", "<foreignObject>", "<desc>", "<mtext>", "</p>", "&lt;img src=x onerror=y&gt;"]
 
 # option vectors (Serializer.tla's o + omit = omit_optional_tags); strip_whitespace / alphabetical_attributes /
 # inject_meta_charset are not part of the MODEL-level exploration (they are in the recorded traces)
@@ -43,7 +43,7 @@ PLAN = [(1, 1, [1, 2]), (2, 1, [1, 2, 3, 4, 5, 6]), (2, 2, [2]), (2, 3, [2]), (3
 
 # allow-list configurations: "default" = what HTMLSerializer(sanitize=True) uses; "extended" = the default lists plus
 # elements that html5lib's serializer writes as raw text by their bare name (an application that allows them)
-EXTRA_ELEMENTS = [(HTML, "noscript"), (HTML, "style"), (SVG, "style")]
+EXTRA_ELEMENTS = [(HTML, "noscript"), (SVG, "style")]
 
 
 def san():
@@ -125,13 +125,13 @@ def _mc_keys():
     return elkeys, atkeys, names
 
 
-def write_cfg(path):
+def write_cfg(path, runs=()):
     elkeys, atkeys, names = _mc_keys()
     lists = {}
     for nm in ("default", "extended"):
         lists[nm] = project_lists(filter_lists(filter_kwargs(nm)), elkeys, atkeys, names, "")
     cfg = {"alphabets": {"all": [enc(f) for f in ALL], "core": [enc(f) for f in CORE], "deep": [enc(f) for f in DEEP]},
-           "lists": lists, "opts": OPTS,
+           "lists": lists, "opts": OPTS, "runs": [{"alphabet": a, "depth": d, "lists": l} for a, d, l in runs],
            "firsts": [{"cx": enc(c), "scr": s} for c, s in FIRSTS],
            "reparses": [{"cx": enc(c), "scr": s} for c, s in REPARSES],
            "plan": [{"f": f, "o": o, "rs": rs} for f, o, rs in PLAN]}
